@@ -40,12 +40,20 @@ def run_scheduled(mode, schedule, workdir, idx, delay=""):
         stdin = b""
     env["STUB_CHILD"] = child
     t0 = time.time()
+    # (own session: on a time-out the whole tree stub -> delta -> stub is removed, not just the stub at its top)
+    p = subprocess.Popen([os.path.join(binpath, "git"), "log", "-p"], stdin=subprocess.PIPE, env=env, cwd=workdir,
+                         stdout=subprocess.PIPE, stderr=subprocess.PIPE, start_new_session=True)
     try:
-        p = subprocess.run([os.path.join(binpath, "git"), "log", "-p"], input=stdin, env=env, cwd=workdir,
-                           stdout=subprocess.PIPE, stderr=subprocess.PIPE, timeout=30)
-        out, err, code, timed_out = p.stdout, p.stderr, p.returncode, False
-    except subprocess.TimeoutExpired as e:
-        out, err, code, timed_out = e.stdout or b"", e.stderr or b"", -1, True
+        out, err = p.communicate(stdin, timeout=30)
+        code, timed_out = p.returncode, False
+    except subprocess.TimeoutExpired:
+        import signal
+        try:
+            os.killpg(p.pid, signal.SIGKILL)
+        except OSError:
+            pass
+        out, err = p.communicate()
+        code, timed_out = -1, True
     events = []
     if os.path.exists(trace):
         for line in open(trace):
